@@ -29,6 +29,41 @@ CLAIMS = {
    text='Theorems for all integers, all code points, all char/byte lists of any length: < <= > >= of the model decide exactly the natural order (cmpList xs ys = lt iff xs < ys in the lexicographic order with the shorter prefix first, by induction on the lists), trichotomy and <= = not > on every ordered pair, all four false on every foreign type pair (complete type square), unit on unordered floats, a < b iff b > a for mixed numbers under stated IEEE order laws. Tied to comparison.rs by the OP suite: numeric lattice incl. int/float neighbours, all string pairs <= 3 over {a,b,é} on both stores, random multi-byte strings, complete cross-type matrix; each also checked against an exact Python oracle.',
    note='Trusted: Lean kernel; FloatOrderLaws F hypotheses for mixed numbers; value-level model tied by the OP suite; slices outside the model.',
    ref='DESIGN.md §6 C12'),
+ 'C01': dict(
+   technique='Lean 4 reference evaluator evalF (Spec/Eval.lean) + value-level abstract machine with per-construct execution theorems; PROG suite: the real lex/parse/build/execute pipeline vs evalF on generated ASTs, both stores, all inputs, scripted hosts',
+   text='The meaning of a program is a Lean big-step evaluator over the AST (independent of lexer, parser, builder, bytecode); the VM is modelled value-level (Abs/Machine.lean) and kernel-checked theorems give, for all states and hosts, what each construct executes to (literals, $, binary operators incl. deferred ones, pairs, lists, `;`, identifier resolution = evalF resolveVal, apply/return frames, reapply, program end). The compile-correctness statement for all programs is stated (C01_compile_correct_statement) and not yet proved: until then every generated program (small-exhaustive + random, minimal parentheses) is run through the real pipeline on both stores with every input value and compared with evalF (value up to expression-table indices, host-call trace).',
+   note='Partial: per-construct machine theorems, not yet the end-to-end compile theorem. Trusted: evalF as the statement of meaning; value-level operator semantics (tied by the OP matrix, related to exact specs by C09/C11/C12); generator printer; harness. Known finding: SimpleGarnishData symbol lists cannot hold numbers.',
+   ref='DESIGN.md §6 C01'),
+ 'C06': dict(
+   technique='Lean 4 theorems on the abstract machine: fixed arity of every operator outcome, call/return restores all three stacks, reapply and side-effect blocks run in constant depth; dynamic per-step depth monitor on every generated program (both stores)',
+   text='Theorems for all machine states: every operator outcome (value, deferred, accepted) pushes exactly one operand; binary operators net -1; apply + EndExpression restore operand stack (result replaces the two operands, leftovers discarded), input-value stack and frame chain; `^~` replaces the input value in place, creates no frame; StartSideEffect/EndSideEffect are balanced. The all-paths statement over built programs is stated, not yet proved (needs the compile model); the RUN suite checks at every executed step of every generated program that the frame-relative operand count is a function of the instruction address, never negative and exactly 1 at EndExpression, and that completion leaves all stacks at their initial depths; reapply loops for iteration counts 0..N.',
+   note='Partial: instruction-level balance theorems + dynamic monitor; static abstract interpretation over all paths (absDepth) not built yet. Programs with bare `;;` excluded as the property says.',
+   ref='DESIGN.md §6 C06'),
+ 'C07': dict(
+   technique='Lean 4 theorems: every Rust panic condition of number arithmetic is an explicit guard yielding none for all i32 (division by zero, MIN / -1, shift counts, negative exponents), positional access never leaves the sequence, step is total; regenerated panic-site inventory vs reviewed baseline; RUN/OP no-panic oracle on boundary programs',
+   text='What a proof can carry here is the absence of the modelled panic conditions: C07_int_guards (all i32 operands), C07_index_guarded (all indexes, all lists), C07_step_outcomes. The tie to the code is (a) the panic-site inventory regenerated from the anchored files on every run and compared with a reviewed baseline, so a new unwrap / index / unreachable / unchecked arithmetic is an undischarged obligation, and (b) the oracle: 100k+ executions per quick run (boundary literals under every operator and in indexing, slicing, casting and range shapes; generated programs; deep nesting; the OP matrix) on both stores with callbacks absent / declining / accepting must never PANIC, ABORT or HANG.',
+   note='Partial by nature: panics inside std or unmodelled code, allocation failure and stack exhaustion are runtime facts watched by the oracle only. Known finding: range-to-list cast with an astronomically large end never returns.',
+   ref='DESIGN.md §6 C07'),
+ 'C13': dict(
+   technique='Lean 4 theorems about a statement-level transliteration of lexer.rs (induction over the character list): lossless, no empty token, exact positions, foreign characters rejected, blank line separates, totality; operator table and Unicode classes regenerated from the Rust; LEX correspondence + oracle',
+   text='For all strings and all character classifications satisfying three checked sanity facts: C13_lossless (token texts concatenate to the input), C13_nonempty, C13_positions_all (row/column of every token = position of its first character, CR included after the repair), C13_rejects_foreign / C13_error_sticky (a character that cannot start a token in NoToken state makes lex fail; a recorded error is never lost), C13_blank_line_separates_general (spaces/tabs before a blank line do not matter), lex_total (never panics, runs out of fuel only never). Longest match is partial (every table spelling is recognised with its type; an operator token ends only where no longer spelling continues). The model is tied to lexer.rs by ~160k LEX cases per quick run (exhaustive short strings over a class alphabet, all operator pairs, random token mixes) with zero disagreements and an independent oracle on the implementation.',
+   note='Trusted: Lean kernel; transliteration Model/Lexer.lean as far as LEX exercises it; regenerated operator table and char-class ranges (dumped from Rust char methods); five lexer defects were repaired with fix: commits, the model follows the repaired code. Global form of foreign-character rejection and full longest-match are stated, not proved.',
+   ref='DESIGN.md §6 C13'),
+ 'C15': dict(
+   technique='Lean 4 refinement proof: BasicGarnishData heap (six growable blocks, reallocate, unchecked write) refines six independent tables for every history under progressing growth policies; SimpleGarnishData intern cache theorem; HEAP/CACHE correspondence cell by cell',
+   text='heap_refines: for every operation history of any length, every initial size and every growth policy that makes progress (additive >= 1; multiplicative >= 2 from non-zero), the abstraction of the model heap equals the six-table specification, pushes never panic, and C15_read_back: an address returned earlier reads the same cell after any later history on any table (sorted symbol tables: the entry is still found). Witness theorems show why progress is needed. simple_intern: with the repaired cache_add (hit confirmed by comparison) equal constants share an address and different constants never do, existing cells never change. Tied to the code by exhaustive interleavings to length 6/7 x sizes {0,1,2} x policies, random and long histories, through read-only heap hooks, plus an implementation-only read-back oracle.',
+   note='Trusted: Lean kernel; transliteration Store/BasicHeap.lean, Store/SimpleCache.lean tied by HEAP/CACHE; hooks verif_blocks/verif_cell; hash collision Float 1.5 / Integer -13291983 was a genuine defect, repaired.',
+   ref='DESIGN.md §6 C15'),
+ 'C16': dict(
+   technique='Lean 4 theorems on transliterations of both list implementations: Simple open-addressing placement + full-scan look-up, Basic association sort + binary search, index_list bounds; LIST correspondence at data and runtime level + item-list oracle',
+   text='For all item lists and all symbols (no bound): simple_lookup and basic_lookup return exactly the value of the pair keyed by the symbol / absent, never an error, for every mix of keyed and unkeyed items with functional keys (address 0 and the 0 = empty convention included); binsearch_correct (loop invariant), sort_puts_assoc_first, nth in/out of range at runtime level on both stores, iteration = insertion order, concat_lookup. Tied to the code by ~17k lists x dozens of queries per quick run (exhaustive to length 4 over six item kinds x adversarial key schemes, random, concatenations) on both stores at data and runtime level, against the models and an oracle computed from the item list alone.',
+   note='Trusted: Lean kernel; store-view hypotheses (ReadableS/ReadableB); transliteration Store/Lists.lean tied by LIST. Known finding: BasicGarnishData::get_list_item (data level) errs beyond the end, pinned by a repository test; the runtime masks it.',
+   ref='DESIGN.md §6 C16'),
+ 'C17': dict(
+   technique='Lean 4 theorems: Resolve consults the input value first, then the host exactly once, then unit; External apply calls the host exactly once with (number, argument); evalF emits the same calls; PROG trace oracle + operand-position templates under scripted recording hosts',
+   text='Handler-level theorems for all states, symbols and hosts (C17_resolve_found_in_input, C17_resolve_protocol, C17_apply_external_protocol, C17_emptyApply_external, C17_evalF_resolve_calls) and, program level, the PROG oracle: the recorded resolve/apply/defer calls of the real pipeline equal evalF`s trace in order, count and arguments for generated programs with identifiers and applications, plus templates placing an identifier or external at every operand position (operators, lists, pairs, tests and arms, both sides of && and ||, nested bodies, side-effect blocks, after `;`, inside a reapply loop) x hosts {absent, declining, accepting} x inputs that do / do not contain the key; resolve on both stores, external apply on Basic.',
+   note='Partial at program level until the compile theorem transfers evalF traces to compiled code for all programs. Trusted: recording host in the harness; evalF trace as specification.',
+   ref='DESIGN.md §6 C17'),
 }
 checks = []
 na = []
